@@ -291,7 +291,7 @@ func checkC02(c *Check) {
 			c.require(ok, "C02.2b rejection-inventory", fnName, key, rs.pos, detail)
 		}
 	}
-	c.floor("C02.2b rejection-inventory", sites, 15, "NOTIFICATION-constructing rejection returns in the OPEN path")
+	c.floor("C02.2b rejection-inventory", sites, 10, "NOTIFICATION-constructing rejection returns in the OPEN path")
 
 	// found-flag monotonicity: a bool loop flag that starts false is only ever
 	// set to true inside the loop (a later capability cannot "unfind" one)
